@@ -8,11 +8,11 @@ from ..core.report import AnalysisError
 from ..frontend.pyfront import Repo
 
 LEVEL = 'other'
-TECHNIQUE = 'abstract interpretation of the sensitivity kernels and the radial-heating coefficient; comparison with the published kernel (Tobie et al. 2005 eq. 33) and with the global-rate coefficient by polynomial identity testing; exactness conditions of the finite-difference stencil'
-LEVEL_TEXT = ('The energy theorem itself needs the numerical solution and is not decided. Decided: the three formula-level facts without which the shell sum cannot '
+TECHNIQUE = 'abstract interpretation of the sensitivity kernels and the radial-heating coefficient; comparison with the published kernel (Tobie et al. 2005 eq. 33) and with the global-rate coefficient by polynomial identity testing; exactness conditions of the finite-difference stencil; the energy theorem in differential form (d/dr of the energy flux along the repository\'s own ODE classes == Im mu * sensitivity_to_shear + Im K * sensitivity_to_bulk) and its surface value, by symbolic differentiation and polynomial identity testing'
+LEVEL_TEXT = ('The energy theorem is decided in differential form (R05.5): for every solution of the equations the solver integrates (compressible solid, static and dynamic; compiled classes and the interpreted kernels) the radial derivative of the energy flux equals Im(mu) H_mu + Im(K) H_K with the repository\'s own kernels, and the surface value of the flux is -(2l+1)R/(4 pi G) Im k; integrating gives the property\'s identity. Discretisation error of the quadrature and of the finite-difference dy1/dr, and the sign of Im k, are not decided. Also decided: the three formula-level facts without which the shell sum cannot '
               'reproduce the global rate for generic interiors: the kernel is TB05 eq. 33, the radial derivative stencil is exact for quadratics (second-order on non-uniform grids), '
               'and the heating coefficient closes with the (21/2) global rate.')
-LEVEL_NOTE = ('Trusted: front-end, interpreter, our transcription of TB05 eq. 33. Not decided: the integral identity, convergence with grid refinement, the sign of Im k (all need the integrated solution).')
+LEVEL_NOTE = ('Trusted: front-end, interpreter, symbolic differentiation; our transcription of TB05 eq. 33 for R05.1 (R05.5 does not use it). Not decided: convergence of the quadrature with grid refinement, the sign of Im k.')
 EXPLANATION = ('R05.1 sensitivity_to_shear/bulk == TB05 eq. 33 with dy1/dr the stencil value, at first/interior/last grid points; R05.2 stencil exact for quadratics (interior) and linear functions (ends); '
                'R05.3 calc_radial_tidal_heating(r) * 4 pi r^2 == (21/2) G M^2 R^5 n e^2 / a^6 * 4 pi G/((2l+1) R) * H_mu * Im(mu).')
 
